@@ -65,7 +65,7 @@ func TestCheck(t *testing.T) {
 	r := vkit.Start(t, "C09", "exploration")
 	defer r.Finish()
 	r.Rule("L1: every non-decreasing timestamp sequence of length L (8 quick / 10 thorough; all shorter ones are its prefixes) over 7-instant grids " +
-		"around the interval boundary x limit 1..4 x 2 intervals, each Add compared with a log model (above iff >= n earlier events within the interval; " +
+		"around the interval boundary x limit 0..4 x 2 intervals (limit 0: every event is above), each Add compared with a log model (above iff >= n earlier events within the interval; " +
 		"an event exactly one interval old may count either way, but consistently); seeded long sequences (ring wrap); concurrent Add. " +
 		"L2: seeded op sequences against real Backoff instances (logical: interval/period/duration 1h so verdicts do not depend on timing; key masks for every prefix length; " +
 		"timed: window slide-out, counter-entry expiry, back-off entry/exit) judged by interval arithmetic over wall-clock stamps taken before/after each call. " +
@@ -121,6 +121,9 @@ func TestCheck(t *testing.T) {
 	r.Require("l2_large_resp_below_count_pass", 6)
 	r.Require("l2_large_resp_window_drop", 6)
 	r.Require("l3_profile_decided", 20)
+	r.Require("l1_steps_limit_zero", 10000)
+	r.Require("l3_profile_rps0_drop", 6)
+	r.Require("l3_stack_profile_rps0_dropped", 6)
 	r.Require("l3_stack_profile_instead_of_global", 5)
 	r.Require("l3_stack_dropped_silently", 20)
 	r.Require("l3_stack_encrypted_unlimited", 20)
@@ -175,10 +178,15 @@ func l1Run(r *vkit.Run, st *l1State, fam string, n int, ivl time.Duration, offs 
 		switch {
 		case lo >= n:
 			r.Bucket("l1_steps_above", 1)
+			if n == 0 {
+				r.Bucket("l1_steps_limit_zero", 1)
+			}
 			sawAbove = true
 			if !above {
 				key := "counter:not-above-with-n-events-in-window"
-				if lo > n {
+				if n == 0 {
+					key = "counter:limit-zero-not-above"
+				} else if lo > n {
 					key = "counter:not-above-with-more-than-n-events-in-window"
 				}
 				r.Violation(key, "Add reported 'not above' although the configured number of earlier events lies strictly within the interval", witness())
@@ -241,7 +249,7 @@ func layer1Exhaustive(r *vkit.Run) {
 			{0, I - 1, I, I + 1, 2 * I, 2*I + 1, 2*I + 2},
 		}
 		for gi, g := range grids {
-			for n := 1; n <= 4; n++ {
+			for n := 0; n <= 4; n++ {
 				idx := make([]int, L)
 				offs := make([]int64, L)
 				var rec func(pos, from int)
@@ -271,7 +279,7 @@ func layer1Exhaustive(r *vkit.Run) {
 	r.Extra("l1_exhaustive_sequences", total)
 	r.Extra("l1_exhaustive_length", L)
 	r.Exhaustive(true)
-	r.Extra("exhaustive_scope", "layer 1 only: all non-decreasing sequences of the stated length over the stated grids, limits 1..4")
+	r.Extra("exhaustive_scope", "layer 1 only: all non-decreasing sequences of the stated length over the stated grids, limits 0..4")
 	l1Finish(r, st, "exhaustive grids")
 	st.mu.Lock()
 	switch {
@@ -288,7 +296,7 @@ func layer1Random(r *vkit.Run) {
 	st := &l1State{}
 	for i := 0; i < cases; i++ {
 		rng := r.Rand("l1random", i)
-		n := 1 + rng.IntN(12)
+		n := rng.IntN(13) // 0..12
 		ivl := []time.Duration{time.Millisecond, time.Second, 3 * time.Second}[rng.IntN(3)]
 		I := int64(ivl)
 		L := 20 + rng.IntN(100)
@@ -301,7 +309,7 @@ func layer1Random(r *vkit.Run) {
 			case 3:
 				t++
 			case 4:
-				t += I / int64(n)
+				t += I / int64(max(n, 1))
 			case 5:
 				t += I - 1
 			case 6:
@@ -311,7 +319,7 @@ func layer1Random(r *vkit.Run) {
 			case 8:
 				t += rng.Int64N(2*I) + 1
 			default:
-				t += rng.Int64N(I/int64(n)+1) + 1
+				t += rng.Int64N(I/int64(max(n, 1))+1) + 1
 			}
 			offs[j] = t
 		}
@@ -333,7 +341,7 @@ func layer1Concurrent(r *vkit.Run) {
 	rounds := r.N(40, 400)
 	for i := 0; i < rounds; i++ {
 		rng := r.Rand("l1conc", i)
-		n := 1 + rng.IntN(20)
+		n := rng.IntN(21) // 0..20
 		ivl := time.Second
 		c := ratelimit.NewRequestCounter(uint(n), ivl)
 		const G, K = 6, 40
@@ -368,10 +376,14 @@ func layer1Concurrent(r *vkit.Run) {
 			r.Violation(key, "concurrent Adds with all timestamps inside a quarter interval: the number of calls reported 'not above' differs from the limit",
 				map[string]any{"round": i, "limit": n, "calls": G * K, "not_above": got})
 		}
-		// the window has slid out completely: must not be above
-		if c.Add(base.Add(ivl/4 + ivl + time.Millisecond)) {
-			r.Violation("counter:above-with-fewer-than-n-events-in-window", "after a concurrent burst, an Add more than one interval later was above",
-				map[string]any{"round": i, "limit": n})
+		// the window has slid out completely: not above (limit 0: always above)
+		if got := c.Add(base.Add(ivl/4 + ivl + time.Millisecond)); got != (n == 0) {
+			key := "counter:above-with-fewer-than-n-events-in-window"
+			if n == 0 {
+				key = "counter:limit-zero-not-above"
+			}
+			r.Violation(key, "after a concurrent burst, the verdict of an Add more than one interval later is wrong",
+				map[string]any{"round": i, "limit": n, "above": got})
 		}
 		r.Eval(fmt.Sprintf("L1c/%d", i), false)
 	}
@@ -390,7 +402,7 @@ func layer1Concurrent(r *vkit.Run) {
 	}
 	for h := 0; h < hist; h++ {
 		rng := r.Rand("l1porc", h)
-		n := 1 + rng.IntN(4)
+		n := rng.IntN(5) // 0..4
 		c := ratelimit.NewRequestCounter(uint(n), time.Second)
 		var mu sync.Mutex
 		var ops []porcupine.Operation
@@ -1559,6 +1571,9 @@ func layer3Profile(r *vkit.Run) {
 func profileCase(r *vkit.Run, i int) {
 	g := r.Rand("l3profile", i)
 	rps := uint32(1 + g.IntN(5))
+	if i%4 == 3 {
+		rps = 0 // enabled profile with rps 0: every query of its clients is dropped
+	}
 	est := uint64(100)
 	in4, in6, out4 := rand4(g), rand6(g), rand4(g)
 	var subnets []netip.Prefix
@@ -1613,11 +1628,16 @@ func profileCase(r *vkit.Run, i int) {
 		rec.Lo, rec.Hi = lo, hi
 		switch {
 		case lo >= int(rps):
-			if res != agd.RatelimitResultDrop {
+			if res != agd.RatelimitResultDrop && rps == 0 {
+				pend = append(pend, pendViol{"profile:rps-zero-not-dropped", "a profile limiter with rps 0 did not drop a query of a client inside its client subnets", nil, len(trace)})
+			} else if res != agd.RatelimitResultDrop {
 				pend = append(pend, pendViol{"profile:pass-with-full-window", "the profile limiter passed a query although the profile already had `rps` events within one second", nil, len(trace)})
 			} else {
 				nDrop++
 				r.Bucket("l3_profile_decided", 1)
+				if rps == 0 {
+					r.Bucket("l3_profile_rps0_drop", 1)
+				}
 			}
 		case hi < int(rps):
 			if res != agd.RatelimitResultPass {
@@ -1873,6 +1893,9 @@ func stackCase(r *vkit.Run, i int) {
 	if i%2 == 1 {
 		rps = 1
 	}
+	if i%3 == 2 {
+		rps = 0 // enabled profile with rps 0: every plain-DNS query of its client subnets is dropped
+	}
 	pin, pout, anon, anon2, encIP := rand4(g), rand4(g), rand4(g), rand6(g), rand4(g)
 	pp, _ := pin.Prefix(24)
 	for pp.Contains(pout) {
@@ -2000,7 +2023,14 @@ func stackCase(r *vkit.Run, i int) {
 		}
 		switch {
 		case lo >= int(rps):
-			expect(o, false, "stack:profile-limit", fmt.Sprintf("profile client, query %d with profile rps %d (global %d)", j+1, rps, gn))
+			pfx := "stack:profile-limit"
+			if rps == 0 {
+				pfx = "stack:profile-rps-zero"
+				if silent(o) {
+					r.Bucket("l3_stack_profile_rps0_dropped", 1)
+				}
+			}
+			expect(o, false, pfx, fmt.Sprintf("profile client, query %d with profile rps %d (global %d)", j+1, rps, gn))
 			if silent(o) && j < int(gn) {
 				r.Bucket("l3_stack_profile_instead_of_global", 1) // dropped although the global limit would allow
 			}
